@@ -48,6 +48,9 @@ def run(db, rep, feat, tier):
         for i in rr.instances:
             i["key"] = "R5." + i["key"]
             i["rule"] = rr.id
+    # merge keeps the entry: merging the entry block into a predecessor changes what executes first (C06.R7)
+    import props.c06 as c06
+    c06.merge_rules(db, rep, "R6")
 
 
 def reads_field(body, fld):
